@@ -78,8 +78,14 @@ func getContext() *ReceiveContext {
 // dispatcher has processed it). A full pool drops the context for GC. The next
 // link is cleared so a context reused by a priority intake starts unlinked.
 func recycleContext(ctx *ReceiveContext) {
+	// a context built for an Ask is still referenced by its caller (see
+	// UnboundedMailbox.Dequeue): reset it but do not pool it
+	pooled := ctx.response == nil
 	ctx.reset()
 	atomic.StorePointer(&ctx.next, nil)
+	if !pooled {
+		return
+	}
 
 	select {
 	case contextCh <- ctx:
